@@ -19,11 +19,25 @@ _GROUPS = ["0", "123456789", ".", "'", '"', "/", "?", "\\", "<", "%:", ">", "+-"
            "LuU", "abcdefghijklmnopqrstvwxyz", "ABCDEFGHIJKMNOPQRSTVWXYZ_"]
 
 
+IDENT0 = "abcdefghijklmnopqrstuvwxyzABCDEFGHIJKLMNOPQRSTUVWXYZ_"
+IDENTN = IDENT0 + "0123456789"
+FAM_DELIMS = " ;(\n\t=,"
+COMMENT_BODY = "a \t\n*/"
+
+
 def chunks(tier, N):
     out = [dict(n=0, g=-1)]
     for n in range(1, N + 1):
         for g in range(len(_GROUPS) + 1):
             out.append(dict(n=n, g=g))
+    # family windows: longer lexemes of ONE sub-parser, alphabet restricted to what keeps the lexer inside it
+    #   ident:   L identifier characters + one delimiter (every keyword / reserved spelling up to that length)
+    #   comment: '/*' + body over {a, blank, tab, newline, '*', '/'} + '*/' (multi-line comments with tabs)
+    for L in range(2, 21):
+        for first in ("lower", "upper_"):
+            out.append(dict(n=L + 1, g=-1, fam="ident", first=first))
+    for L in ((3, 4) if tier == "quick" else (3, 4, 5, 6)):
+        out.append(dict(n=L + 4, g=-1, fam="comment"))
     return out
 
 
@@ -162,9 +176,18 @@ def run_chunk(chunk, ctx):
     chars = [declare(Var(f"c{i}", range(128))) for i in range(n)]
     if n and g >= 0:
         ex.solver.add(core.key_expr(("in", chars[0], _group_codes(g))) if _group_codes(g) else z3.BoolVal(False))
+    fam = chunk.get("fam")
+    if fam == "ident":
+        f0 = "abcdefghijklmnopqrstuvwxyz" if chunk["first"] == "lower" else "ABCDEFGHIJKLMNOPQRSTUVWXYZ_"
+        chars = ([declare(Var("c0", map(ord, f0)))] + [declare(Var(f"c{i}", map(ord, IDENTN))) for i in range(1, n - 1)] +
+                 [declare(Var(f"c{n - 1}", map(ord, FAM_DELIMS)))])
+    if fam == "comment":
+        chars = (["/", "*"] + [declare(Var(f"c{i}", map(ord, COMMENT_BODY))) for i in range(2, n - 2)] + ["*", "/"])
     line0, col0 = z3.Int("line0"), z3.Int("col0")
     ex.solver.add(line0 >= 1, col0 >= 1)
     col = Collector(HNAME, seed=ctx["seed"], sample_rate=ctx.get("sample_rate", 0.05))
+    if fam:
+        col.sample_rate = 1.0 if fam == "ident" else 0.2
     cur = {}
 
     def out(prop, fp, what, cond):
@@ -188,7 +211,7 @@ def run_chunk(chunk, ctx):
             col.gap(str(res)[:80])
         elif status == "timeout":
             m = ex.model()
-            case = dict(w=SymStr(chars).concretize(m), line=1, col=1, props=sorted(props))
+            case = dict(w=SymStr(chars).concretize(m) if chars else "", line=1, col=1, props=sorted(props))
             import traceback
             from symx.native import hang_site
             col.violation("hang::" + hang_site(res.__traceback__), "lexer step does not terminate", case)
